@@ -96,7 +96,7 @@ def handle (st : St) (idx : Nat) (line : String) : St × String :=
       (st, emit idx impl { model := model, fails := bad.map (fun t => s!"C17:type-not-encodable-and-decodable:{t}"), tags := ["types"] })
     | "retry" :: "write" :: rest =>
       (match (kv rest "b").bind fromHex with
-       | some b => (st, emit idx impl (judgeRetry ((kvNat rest "r").getD 0) (parseOutcomes ((kv rest "outs").getD "-")) b implToks))
+       | some b => (st, emit idx impl (judgeRetry ((kvNat rest "r").getD 0) (parseOutcomes ((kv rest "outs").getD "-")) b implToks (kvNat rest "s")))
        | none => bad)
     | "retry" :: "conn" :: rest =>
       (match (kv rest "b").bind fromHex with
@@ -134,7 +134,7 @@ def handle (st : St) (idx : Nat) (line : String) : St × String :=
        | none => bad)
     | "conn" :: "serve" :: rest =>
       (st, emit idx impl (judgeConn dict ((kvNat rest "n").getD 1) (kv rest "h" == some "mux" || kv rest "h" == some "mux2") (kv rest "x" == some "1") ((kv rest "ev").getD "") implToks (kv rest "h" == some "mux2")))
-    | "conn" :: "accept" :: rest => (st, emit idx impl (judgeAccept ((kv rest "ev").getD "") implToks))
+    | "conn" :: "accept" :: rest => (st, emit idx impl (judgeAccept ((kv rest "ev").getD "") implToks ((kv rest "hold").getD "0" == "1")))
     | "conn" :: "cwrite" :: _ => (st, emit idx impl (judgeCwrite implToks))
     | "stream" :: "read" :: rest =>
       (match fromHex (rest.getLast?.getD "") with
